@@ -4,7 +4,7 @@
     ~1100 generated methods are the descriptor list [ds] translated from the
     source on every run (Gen/BuilderData.v) - the theorems hold for EVERY
     descriptor list, every reachable state and every call sequence. *)
-From RV Require Import Model.Base Model.Bytes Model.Module Model.Inst Model.Builder Proofs.BuilderFacts Inst.C12_inst.
+From RV Require Import Model.Base Model.Bytes Model.Module Model.Inst Model.Builder Proofs.BuilderFacts Proofs.BuilderQueryFacts Inst.C12_inst Inst.Run.
 From RV Require Import Gen.BuilderData.
 
 Theorem C12_all_methods_described : unrecognised_methods = [].
@@ -80,6 +80,22 @@ Theorem C12_end_function_closes :
   (bs_fn s <> None -> o = BUnit /\ bs_fn s' = None /\ bs_blk s' = None).
 Proof. exact end_function_closes. Qed.
 
+(** the read-only / derived methods never panic either: after ANY history of
+    calls on a new builder, find_return_block_indices (as repaired by commit
+    7a7269d: a block without instructions is simply not a return block) and
+    select_function_by_name return normally *)
+Theorem C12_queries_never_panic :
+  forall cs s os, brun k_function_control descriptors bnew cs = Some (s, os) ->
+  find_return_blocks s <> None /\ forall name, select_function_by_name s name <> None.
+Proof. exact queries_never_panic. Qed.
+
+(** select_function_by_name leaves the module alone and keeps the selection valid *)
+Theorem C12_select_by_name_keeps_invariants :
+  forall s name r, defs_ok s -> names_ok s -> sel_ok s ->
+  select_function_by_name s name = Some r ->
+  sel_ok (fst r) /\ defs_ok (fst r) /\ names_ok (fst r).
+Proof. exact select_function_by_name_sel_ok. Qed.
+
 (** non-vacuity: an out-of-range offset does panic; a failed call can advance the id counter *)
 Example C12_nonvacuous : sel_ok bnew /\ (0 < length descriptors)%nat.
 Proof. split; [exact sel_ok_new|vm_compute; apply le_n_S, Nat.le_0_l]. Qed.
@@ -96,3 +112,5 @@ Print Assumptions C12_terminator_closes_block.
 Print Assumptions C12_parameter_fails_iff_no_function.
 Print Assumptions C12_end_function_closes.
 Print Assumptions C12_nonvacuous.
+Print Assumptions C12_queries_never_panic.
+Print Assumptions C12_select_by_name_keeps_invariants.
